@@ -33,6 +33,10 @@ pub struct Ctx {
 impl Ctx {
     pub fn emit(&mut self, c: Case) {
         let mut tags = c.tags.clone();
+        if c.impl_out.contains("no-return-within") {
+            // a case stopped by the watchdog says nothing about the property (slow is not wrong): inconclusive
+            tags.push("inconclusive".into());
+        }
         if c.nontrivial {
             tags.push("nt".into());
         }
@@ -97,6 +101,10 @@ fn main() {
             x => panic!("unknown arg {x}"),
         }
         i += 1;
+    }
+    if let Some(t) = params.get("case_timeout") {
+        // per-suite watchdog limit (suites whose single cases are legitimately long-running)
+        std::env::set_var("SV_CASE_TIMEOUT_S", t);
     }
     let mut ctx = Ctx {
         rng: Rng::new(seed.wrapping_mul(1000003).wrapping_add(shard.0)),
